@@ -14,8 +14,10 @@ def points(fnode):
     # parameter defaults are not part of the body a contract speaks about (the contract quantifies over every argument value)
     # (nor are decorators: e.g. the size of an lru_cache)
     in_defaults = {id(x) for d in fnode.args.defaults + [k for k in fnode.args.kw_defaults if k is not None] + fnode.decorator_list for x in ast.walk(d)}
+    # (nor are the bodies of nested functions: they are verified, and mutated, under their own contracts)
+    nested = {id(x) for n in ast.walk(fnode) if n is not fnode and isinstance(n, (ast.FunctionDef, ast.Lambda)) for x in ast.walk(n)}
     for i, n in enumerate(ast.walk(fnode)):
-        if id(n) in in_defaults:
+        if id(n) in in_defaults or id(n) in nested:
             continue
         if isinstance(n, ast.Compare):
             for j, op in enumerate(n.ops):
